@@ -265,6 +265,14 @@ func checkSummary(v *vcase.Verdict, c Case, xs []float64) {
 			v.Failf("AssumeNormal.Summary: confidence %v, requested %v", sum.Confidence, c.Confidence)
 			return
 		}
+		if n == 1 {
+			// one value says nothing about the spread: the t interval with 0 degrees of freedom is the whole line
+			if !math.IsInf(sum.Lo, -1) || !math.IsInf(sum.Hi, 1) {
+				v.Failf("AssumeNormal.Summary(%v): interval [%v,%v] from a single value, want an unbounded one", xs, sum.Lo, sum.Hi)
+				return
+			}
+			v.Label("normal_single_value")
+		}
 		if n >= 2 {
 			sd := math.Sqrt(refstat.F64(refstat.VarianceRat(xs)))
 			if sd > 1e-6*maxAbs(xs) { // away from catastrophic cancellation in the library's running variance
